@@ -1,4 +1,5 @@
 """C14 — each broker call gets its own response or an error."""
+from decgen_tie import run_decgen
 
 
 def run(c):
@@ -19,6 +20,8 @@ def run(c):
     if not c.coq_make():
         return
     c.coq_properties()
+    # the receiver's decisions (getHeaderLength, responseHeader.decode, one receiver iteration) regenerated from the source
+    run_decgen(c, "C14")
     b = c.go_build("c14corr")
     if not b:
         return
@@ -31,7 +34,9 @@ def run(c):
     for l in out.splitlines():
         if l.startswith("C14 cases="):
             c.note(l)
-            nh = int(l.split("nohooks=")[1])
+            nh = int(l.split("nohooks=")[1].split()[0])
+            if "panics=" in l and int(l.split("panics=")[1].split()[0]):
+                c.break_("corr", "a sarama goroutine panicked during the run (%s)" % l.strip(), out[-2000:])
             if nh:
                 c.break_("tie", "broker.go logs no verifPoint events in %d cases (hooks/c14_broker.patch not applied to %s?)" % (nh, "the tree"), l)
     c.eval_cases(files, name="broker connection trace validation")
